@@ -50,6 +50,7 @@ type Unit struct {
 	heapOrder []string
 	unsupported []string
 	autoInlined map[string]bool
+	atHit     map[*Clause]bool
 	npaths    int
 	props     []string
 	assumed   map[string]bool // assumption notes for the evidence
